@@ -370,14 +370,17 @@ def _run_schedule(res, p, tier, selftest):
 def _run_derived(res, p, tier, selftest):
     """strengths derived from task_loss at the first call: positive and finite when every cost starts above its target;
     later calls on the same instance behave like the given-strength case (zero iff below target, non-negative)"""
-    for k in (1, 2):
+    for k, first in ((1, 'above'), (2, 'above'), (2, 'first_within')):
         for (e, n) in ((0, 1), (1, 4), (2, 4), (4, 4)):
             def fn(ex):
                 with SymMode():
                     d, names, t, tl = _mk_duccio(ex, k, derived=True)
                     c0 = [z3.Real(f'c{i}') for i in range(k)]
-                    for ci, ti in zip(c0, t):
-                        ex.assume(ci > ti)
+                    for i_, (ci, ti) in enumerate(zip(c0, t)):
+                        # 'first_within': the first listed metric already meets its target at the first call (its derived strength is then 0 in the
+                        # documented rule, so the statement - which is about positive strengths - says nothing; a derivation that nevertheless ends
+                        # up with positive strengths only must still obey it)
+                        ex.assume(ci < ti if (first == 'first_within' and i_ == 0) else ci > ti)
                     v1 = _val(d(Stub({nm: _t(ci) for nm, ci in zip(names, c0)}), e, n))
                     fs = [_val(x) for x in d.final_strengths]
                     c1 = [z3.Real(f'd{i}') for i in range(k)]
@@ -392,8 +395,13 @@ def _run_derived(res, p, tier, selftest):
                           ('zero_iff', z3.Xor(st.lift(st.e_eq(v2, 0), 'b'), allbelow))]
                 nog = [z3.Not(g) for g in guards]
                 checks = [('nonfinite', g) for g in guards] + checks
+                pre = []
+                if first == 'first_within':
+                    # precondition of the statement: every derived strength is positive
+                    pre = [st.lift(st.e_gt(f, 0), 'b') for f in fs]
+                    checks = [c_ for c_ in checks if c_[0] in ('negative', 'zero_iff')]
                 for name, bad in checks:
-                    r, m = ex.check(bad, *([] if name == 'nonfinite' else nog))
+                    r, m = ex.check(bad, *pre, *([] if name == 'nonfinite' else nog))
                     if r == 'unknown':
                         res.inconclusive.append(f'derived k={k} {e}/{n} {name}: unknown')
                         continue
@@ -402,7 +410,7 @@ def _run_derived(res, p, tier, selftest):
                         obs = name if name in ('negative', 'zero_iff', 'nonfinite') else 'zero_iff'
                         rec = {'observable': obs, 'targets': [st.model_value(m, x) for x in t], 'strengths': None, 'task_loss': st.model_value(m, tl),
                                'costs': [[st.model_value(m, x) for x in c0], [st.model_value(m, x) for x in c1]], 'epochs': [e, e], 'n': n,
-                               'key': f'duccio_derived|{name}|k={k}'}
+                               'key': f'duccio_derived|{name}|k={k}' + ('|first_metric_within_target' if first == 'first_within' else '')}
                         if name in ('strength_nonpositive', 'first_call_nonpositive'):
                             rec['costs'] = [rec['costs'][0]]
                             rec['epochs'] = [e]
